@@ -36,7 +36,7 @@ class C20(Prop):
         # translator ties: the regenerated guards / statements equal what the model does
         "NV.C20.tie_load_guard", "NV.C20.tie_load_no_current", "NV.C20.tie_load_test_first",
         "NV.C20.tie_clone_entry", "NV.C20.tie_clone_retest", "NV.C20.tie_clone_order",
-        "NV.C20.tie_export_error", "NV.C20.tie_export_target", "NV.C20.tie_seteuid_verdict", "NV.C20.tie_seteuid_null_verdict",
+        "NV.C20.tie_export_error", "NV.C20.tie_seteuid_verdict", "NV.C20.tie_seteuid_null_verdict",
         # round 5: inventory of every uid/euid write in the driver; interleaved statement order of the anchor functions
         "NV.C20.tie_uid_writes_governed", "NV.C20.tie_uid_write_inventory", "NV.C20.tie_uid_rules_all_used", "NV.C20.tie_uid_records_never_renamed",
         "NV.C20.tie_load_tail_shape", "NV.C20.tie_clone_shape", "NV.C20.tie_init_object_shape",
